@@ -134,7 +134,10 @@ def run(chk, repo: Repo):
     chk.rule("C03-R1", "mutable parameters the log-density's value depends on ⊆ parameters the gradient's value depends on "
                        "(form tests and message texts excluded; precision-type parameters grouped)", floor=9)
     chk.rule("C03-R2", "no gradient implementation falls off its end, returns None, or constructs an exception without raising it", floor=20)
-    chk.rule("C03-R3", "chain-rule guards dominate; identity-geometry guards test the exact type; sum rule at one argument", floor=12)
+    chk.rule("C03-R3", "chain-rule guards dominate; identity-geometry guards test the exact type; sum rule at one argument; the capability tests are static "
+                       "(no dynamic attribute forwarding in the geometry / model / distribution layers)", floor=12)
+    from ..dynattr import dynamic_attribute_rule
+    dynamic_attribute_rule(chk, repo, "C03-R3", ("cuqi/geometry/", "cuqi/model/", "cuqi/distribution/", "cuqi/likelihood/", "cuqi/density/"))
     chk.rule("C03-R4", "support predicate of the gradient equals that of the log-density; out-of-support gradients are NaN; component-wise support tests are aggregated with any()", floor=5)
     chk.rule("C03-R5", "FD switch: Density.gradient tests FD_enabled first and differentiates self.logd; Likelihood forwards the switch", floor=6)
     _r1(chk, repo)
@@ -145,6 +148,16 @@ def run(chk, repo: Repo):
     chk.rule("C03-R6", "Gaussian gradient applies the precision in the orientation of the log-density: sqrtprec.T @ (sqrtprec @ residual), never the square root twice in one orientation", floor=2)
     from ..gram import gram_orientation
     gram_orientation(chk, repo, "C03-R6", only={"Gaussian._gradient"})
+    # GMRF: on every path that returns a value, the gradient is minus the precision operator of the log-density applied to x - mean (an `order == 0`
+    # shortcut -prec*(x - mean) is wrong on 2-D grids, where the order-0 operator stacks both directions and the precision is 2 I)
+    from .common import closed_outcomes as _co, expected_text as _et
+    gm = repo.cls("cuqi/distribution/_gmrf.py:GMRF")
+    gg = repo.method(gm, "_gradient")[1]
+    xg = func_params(gg)[1]
+    vals = {t_ for k_, t_ in _co(repo, gm, gg, level=2) if k_ == "return"}
+    chk.add("C03-R6", f"{gm.qual}._gradient", vals == {_et(f"-(self.prec*self._prec_op)@({xg}-self.mean)")}, site(repo, gg),
+            "-(prec * precision operator) @ (x - mean) on every path",
+            f"GMRF gradient is {sorted(vals)}: not minus the precision operator of the log-density applied to x - mean on every path", gg)
     from ..gram import same_orientation_application
     same_orientation_application(chk, repo, "C03-R6")          # (the orientation rule above carries the non-vacuity floor)
     chk.rule("C03-R7", "values memoised on a density (lazy caches read by gradient or log-density) are reset by every writer of the fields they "
